@@ -10,7 +10,7 @@ def hexDigit (c : Char) : Nat :=
 def hexToNat (s : String) : Nat := s.foldl (fun acc c => acc * 16 + hexDigit c) 0
 
 /-- float from its IEEE-754 bit pattern in hex -/
-def fb (s : String) : Float := Float.ofBits (UInt64.ofNat (hexToNat s))
+def fb (s : String) : Float := if s == "nan" then 0.0 / 0.0 else Float.ofBits (UInt64.ofNat (hexToNat s))
 
 def toHex (f : Float) : String :=
   if f.isNaN then "nan" else String.ofList (Nat.toDigits 16 f.toBits.toNat)
